@@ -256,6 +256,16 @@ def build_program(dev_stmts, g, draw=None):
     prog = [[10, init]]
     ln = 20
     for s in dev_stmts:
+        r = draw(st.integers(0, 7)) if draw is not None else 7
+        if r == 0 and len(prog) > 1 and prog[-1][1][-1][0] != "if":
+            prog[-1][1].append(s)  # several statements on one line
+            continue
+        if r == 1:
+            s = ["if", ["cmp", "=", ["var", g.int_vars[0]], ["num", "2", 2]], ["stmts", [s]], ["stmts", [["let", ["var", "Z9"], ["num", "1", 1], False]]]]
+        elif r == 2:
+            s = ["if", ["cmp", "<>", ["var", g.int_vars[0]], ["num", "2", 2]], ["stmts", [["let", ["var", "Z9"], ["num", "1", 1], False]]], ["stmts", [s]]]
+        elif r == 3:
+            s = ["if", ["cmp", "=", ["var", g.int_vars[0]], ["num", "2", 2]], ["stmts", [s]], None]
         prog.append([ln, [s]])
         ln += 10
     ep = []
@@ -285,7 +295,7 @@ def cases(draw, switches):
         s, form = fg.device()
         stmts.append(s)
         forms.append(form)
-    prog = build_program(stmts, fg.g)
+    prog = build_program(stmts, fg.g, draw)
     # implicit arrays used by operands: give the corners values
     corners = []
     for name, bounds in sorted(fg.g.num_arrays.items()):
@@ -294,8 +304,9 @@ def cases(draw, switches):
     if corners:
         prog.insert(1, [15, corners])
     nonlit = fg.g.n_ops > 0 or fg.g.n_conv > 0 or bool(fg.g.used)
-    return {"prog": prog, "paren_unary": "paren_unary" in switches,
-            "_meta": {"forms": forms, "nonliteral": nonlit, "excluded": dict(fg.g.excluded), "n_conv": fg.g.n_conv}}
+    return full.add_layout(draw, {"prog": prog, "paren_unary": "paren_unary" in switches,
+                                  "_meta": {"forms": forms, "nonliteral": nonlit, "excluded": dict(fg.g.excluded), "n_conv": fg.g.n_conv}},
+                           switches, key="source_override", one_in=2)
 
 
 OPTIONAL_OMITTED = {"CLS", "HSCREEN", "HCLS", "HCOLOR f", "HCIRCLE", "HELLIPSE", "HARC", "HPAINT", "HPAINT c", "HLINE rel PSET", "HLINE rel PRESET B", "HLINE rel PSET BF",
@@ -352,6 +363,8 @@ def campaign(seed, n, switches=frozenset()):
 
     def body(case):
         meta = case.pop("_meta")
+        if meta.get("drawn_layout"):
+            stats.classes["drawn_layout"] += 1
         case = dict(case)
         check_case(case)
         triv = case.get("_trivial")
